@@ -5,6 +5,7 @@ package main
 import (
 	"fmt"
 	"math"
+	"time"
 )
 
 func init() {
@@ -190,6 +191,64 @@ func planC02(g *Gen, tier string) GenOutput {
 	derivers := []string{"head", "tail", "rowslice", "filter", "loc", "iloc", "multiselect", "sort", "shift", "dedup", "join", "add", "apply", "describe", "resample", "groupagg"}
 	editors := []string{"appendrow", "droprow", "fillna", "dropna", "astype", "rename", "addcolumn", "dropcolumn", "setcell", "setcell", "appendrow"}
 	reps := scale(tier, 2, 12)
+	// chains: derive from a derived frame (the first result is the second one's source), then edit both.
+	// These run first: state shared through anything that outlives one call shows here before other histories disturb it
+	for rep := 0; rep < reps; rep++ {
+		for _, d := range derivers {
+			for _, e := range editors {
+				f := base()
+				h := runInterleaved(fmt.Sprintf("chain %s/%s", d, e), []Frame{f}, 6, func(step int, pool []Frame) *Op {
+					if step < 2 {
+						if len(pool) <= step {
+							return nil
+						}
+						src := pool[step]
+						if len(src.Cols) == 0 {
+							return nil
+						}
+						kind := d
+						hasIndex, hasT, hasA := false, false, false
+						for _, n := range src.names() {
+							hasIndex = hasIndex || n == "index"
+							hasT = hasT || n == "t"
+							hasA = hasA || n == "a"
+						}
+						if (kind == "loc" || kind == "join" || kind == "groupagg") && !hasIndex {
+							kind = "describe"
+						}
+						if kind == "resample" && !hasT {
+							kind = "describe"
+						}
+						if kind == "groupagg" && !hasA {
+							kind = "describe"
+						}
+						o := c02Derive(g, kind, src)
+						o.F = step
+						if kind == "join" || kind == "add" {
+							o.G = step
+						}
+						return &o
+					}
+					if len(pool) < 3 {
+						return nil
+					}
+					target := 1 + (step % 2)
+					kind := e
+					if step >= 4 {
+						kind = editors[g.r.Intn(len(editors))]
+					}
+					o := g.genOp(kind, []Frame{pool[target]}, 0)
+					o.F = target
+					if kind == "setcell" && pool[target].nrows() > 0 {
+						o.N = int64(g.r.Intn(pool[target].nrows()))
+					}
+					return &o
+				})
+				res.Hists = append(res.Hists, h)
+				bump(res.Stats, "chain "+d)
+			}
+		}
+	}
 	// every (deriving operation, edit, side) pair, then the other side, then both again
 	for rep := 0; rep < reps; rep++ {
 		for _, d := range derivers {
@@ -378,7 +437,11 @@ func (g *Gen) groupFrame(maxRows int, collide bool, valueKinds []string) Frame {
 				ks := []Cell{StrCell("x|y"), StrCell("x"), StrCell("y|z"), StrCell("z"), StrCell("y"), IntCell("int", 1), StrCell("1"), NilCell(), StrCell("<nil>"), BoolCell(true), StrCell("true")}
 				c.Data = append(c.Data, ks[g.r.Intn(len(ks))])
 			case kind == "mixedkey":
-				c.Data = append(c.Data, keyAlphabet[g.r.Intn(len(keyAlphabet))])
+				if i == 0 && g.chance(0.4) {
+					c.Data = append(c.Data, NilCell()) // a nil key in the very first row
+				} else {
+					c.Data = append(c.Data, keyAlphabet[g.r.Intn(len(keyAlphabet))])
+				}
 			case kind == "pstr":
 				c.Data = append(c.Data, StrCell([]string{"p", "q", "r", "p q", ""}[g.r.Intn(5)]))
 			case kind == "int":
@@ -390,8 +453,13 @@ func (g *Gen) groupFrame(maxRows int, collide bool, valueKinds []string) Frame {
 		cols = append(cols, c)
 	}
 	nv := 1 + g.r.Intn(2)
+	vnames := []string{"v0", "v1"}
+	if g.chance(0.3) {
+		// names contained in (or containing) the key column's name
+		vnames = [][]string{{"k", "v1"}, {"0", "v"}, {"", "vk0"}, {"k00", "0k"}}[g.r.Intn(4)]
+	}
 	for j := 0; j < nv; j++ {
-		c := Col{Key: BStr(fmt.Sprintf("v%d", j)), Name: BStr(fmt.Sprintf("v%d", j)), Data: []Cell{}}
+		c := Col{Key: BStr(vnames[j]), Name: BStr(vnames[j]), Data: []Cell{}}
 		kind := valueKinds[g.r.Intn(len(valueKinds))]
 		for i := 0; i < n; i++ {
 			if g.chance(0.2) {
@@ -414,7 +482,7 @@ func planC04(g *Gen, tier string) GenOutput {
 		ops := []Op{}
 		keyCols := []string{}
 		for _, nm := range f.names() {
-			if nm[0] == 'k' {
+			if len(nm) == 2 && nm[0] == 'k' && nm[1] >= '0' && nm[1] <= '9' {
 				keyCols = append(keyCols, nm)
 			}
 		}
@@ -451,7 +519,7 @@ func planC05(g *Gen, tier string) GenOutput {
 		f := g.groupFrame(scale(tier, 8, 12), false, valueKinds)
 		vcols := []BStr{}
 		for _, nm := range f.names() {
-			if nm[0] == 'v' {
+			if !(len(nm) == 2 && nm[0] == 'k' && nm[1] >= '0' && nm[1] <= '9') {
 				vcols = append(vcols, BStr(nm))
 			}
 		}
@@ -463,7 +531,11 @@ func planC05(g *Gen, tier string) GenOutput {
 			} else {
 				o.GList = true
 				o.Strs = []BStr{"k0"}
-				if g.chance(0.5) && len(f.Cols) > 2 && f.names()[1][0] == 'k' {
+				hasK1 := false
+				for _, nm := range f.names() {
+					hasK1 = hasK1 || nm == "k1"
+				}
+				if g.chance(0.5) && hasK1 {
 					o.Strs = append(o.Strs, "k1")
 				}
 			}
@@ -492,14 +564,15 @@ func planC06(g *Gen, tier string) GenOutput {
 			kind := []string{"int", "f64", "pstr", "bool"}[g.r.Intn(4)]
 			c := Col{Key: BStr(fmt.Sprintf("s%d", j)), Name: BStr(fmt.Sprintf("s%d", j)), Data: []Cell{}}
 			dup := 2 + g.r.Intn(4)
+			nilFirst := g.chance(0.3)
 			for r := 0; r < nr; r++ {
 				switch {
-				case g.chance(0.2):
+				case g.chance(0.2) || (r == 0 && nilFirst):
 					c.Data = append(c.Data, NilCell())
 				case kind == "int":
-					c.Data = append(c.Data, IntCell("int", int64(g.r.Intn(dup))-1))
+					c.Data = append(c.Data, IntCell("int", []int64{9, 10, 100, -5, 2, 33}[g.r.Intn(dup+1)]))
 				case kind == "f64":
-					c.Data = append(c.Data, F64Cell(float64(g.r.Intn(dup))/4-0.5))
+					c.Data = append(c.Data, F64Cell([]float64{9.75, 10.25, 100.5, -2, 0.5, 33}[g.r.Intn(dup+1)]))
 				case kind == "pstr":
 					c.Data = append(c.Data, StrCell([]string{"b", "a", "ab", "B", "é", "", "a b"}[g.r.Intn(dup+1)]))
 				default:
@@ -535,7 +608,8 @@ func planC06(g *Gen, tier string) GenOutput {
 
 // ---------------- C07: DropDuplicates ----------------
 var dedupAlphabet = []Cell{NilCell(), StrCell("nil"), StrCell(""), StrCell("|"), StrCell(":"), StrCell("a|b:c"), IntCell("int", 1), StrCell("1"),
-	StrCell("x|b:y"), StrCell("x"), StrCell("y|b:z"), StrCell("z"), StrCell("y")}
+	StrCell("x|b:y"), StrCell("x"), StrCell("y|b:z"), StrCell("z"), StrCell("y"), StrCell("1.0"), StrCell("01"), StrCell("1e0"), StrCell("NaN"), StrCell("NaN"),
+	IntCell("int", 9007199254740992), IntCell("int", 9007199254740993), F64Cell(1)}
 
 func planC07(g *Gen, tier string) GenOutput {
 	res := GenOutput{Stats: map[string]int{}}
@@ -603,7 +677,7 @@ func planC08(g *Gen, tier string) GenOutput {
 	spec := FrameSpec{MinRows: 0, MaxRows: 5, MinCols: 0, MaxCols: 4, Kinds: []string{"int", "pstr", "f64", "mixed"}, NilProb: 0.15}
 	kinds := []string{"row", "head", "tail", "rowslice", "iloc", "loc", "filter", "multiselect", "droprow", "dropcolumn", "columnnames", "nrows", "ncols"}
 	// exhaustive boundary stream on small frames
-	maxRows := scale(tier, 3, 4)
+	maxRows := 4
 	for n := 0; n <= maxRows; n++ {
 		a := Col{Key: "a", Name: "a", Data: []Cell{}}
 		idx := Col{Key: "index", Name: "index", Data: []Cell{}}
@@ -628,6 +702,30 @@ func planC08(g *Gen, tier string) GenOutput {
 				keep = append(keep, mask>>i&1 == 1)
 			}
 			ops = append(ops, Op{K: "filter", F: 0, Keep: keep})
+		}
+		// every Iloc row-position list up to length min(n,4)+... over the rows (repeats, permutations)
+		if n >= 1 && n <= 4 {
+			var lists [][]int64
+			var rec func(p []int64, k int)
+			rec = func(p []int64, k int) {
+				if len(p) > 0 {
+					lists = append(lists, append([]int64{}, p...))
+				}
+				if k == 0 {
+					return
+				}
+				for r := 0; r < n; r++ {
+					rec(append(p, int64(r)), k-1)
+				}
+			}
+			maxLen := n
+			if maxLen > 4 {
+				maxLen = 4
+			}
+			rec([]int64{}, maxLen)
+			for _, l := range lists {
+				ops = append(ops, Op{K: "iloc", F: 0, Ints: l, Ints2: []int64{0, 1}})
+			}
 		}
 		for i := 0; i < len(ops); i += 12 {
 			j := i + 12
@@ -766,6 +864,53 @@ func planC10(g *Gen, tier string) GenOutput {
 // ---------------- C15: cleaning and conversion ----------------
 func planC15(g *Gen, tier string) GenOutput {
 	res := GenOutput{Stats: map[string]int{}}
+	// an unconvertible cell at each position of an otherwise convertible column: the column must stay as it was
+	for n := 1; n <= 4; n++ {
+		for bad := 0; bad < n; bad++ {
+			d := Col{Key: "d", Name: "d", Data: []Cell{}}
+			fcol := Col{Key: "f", Name: "f", Data: []Cell{}}
+			icol := Col{Key: "i", Name: "i", Data: []Cell{}}
+			for i := 0; i < n; i++ {
+				if i == bad {
+					d.Data = append(d.Data, StrCell("not a date"))
+					fcol.Data = append(fcol.Data, StrCell("x"))
+					icol.Data = append(icol.Data, F64Cell(1.5))
+				} else {
+					d.Data = append(d.Data, StrCell(fmt.Sprintf("2021-03-%02d", i+1)))
+					fcol.Data = append(fcol.Data, F64Cell(float64(i)+0.75))
+					icol.Data = append(icol.Data, IntCell("int", int64(i)))
+				}
+			}
+			ops := []Op{{K: "datetime", F: 0, S1: "d", S2: "2006-01-02"}, {K: "astype", F: 0, S1: "f", S2: "int"},
+				{K: "astype", F: 0, S1: "i", S2: "float64"}, {K: "astype", F: 0, S1: "i", S2: "complex"}}
+			res.Hists = append(res.Hists, RunHist(fmt.Sprintf("bad-cell-at-%d-of-%d", bad, n), []Frame{mkFrame(d, fcol, icol)}, ops))
+			bump(res.Stats, "bad-cell-each-position")
+		}
+	}
+	// DropNa / FillNa on every nil pattern of a 3x2 frame
+	for mask := 0; mask < 64; mask++ {
+		a := Col{Key: "a", Name: "a", Data: []Cell{}}
+		b := Col{Key: "b", Name: "b", Data: []Cell{}}
+		for i := 0; i < 3; i++ {
+			if mask>>(2*i)&1 == 1 {
+				a.Data = append(a.Data, NilCell())
+			} else {
+				a.Data = append(a.Data, IntCell("int", int64(i)))
+			}
+			if mask>>(2*i+1)&1 == 1 {
+				b.Data = append(b.Data, NilCell())
+			} else {
+				b.Data = append(b.Data, StrCell(fmt.Sprintf("s%d", i)))
+			}
+		}
+		v := IntCell("int", 0)
+		ops := []Op{{K: "dropna", F: 0}}
+		if mask%2 == 0 {
+			ops = []Op{{K: "fillna", F: 0, Cell: &v}, {K: "dropna", F: 0}}
+		}
+		res.Hists = append(res.Hists, RunHist("nil-patterns", []Frame{mkFrame(a, b)}, ops))
+		bump(res.Stats, "nil-patterns")
+	}
 	n := scale(tier, 400, 6000)
 	dates := []string{"2021-03-04", "1999-12-31", "2021-02-30", "2021-3-4", "", "2020-02-29 10:11:12", "03/04/2021", "x"}
 	for i := 0; i < n; i++ {
@@ -907,7 +1052,12 @@ func planC17seq(g *Gen, tier string) GenOutput {
 		f := g.frame(sp)
 		ops := []Op{}
 		for j := 0; j < 3; j++ {
-			ops = append(ops, g.genOp("apply", []Frame{f}, 0))
+			o := g.genOp("apply", []Frame{f}, 0)
+			if g.chance(0.25) {
+				// functions returning a slice of another length, or their own argument
+				o.Fn = []int{9, 10, 11}[g.r.Intn(3)]
+			}
+			ops = append(ops, o)
 		}
 		res.Hists = append(res.Hists, RunHist("apply", []Frame{f}, ops))
 		bump(res.Stats, fmt.Sprintf("rows<=%d", sp.MaxRows))
@@ -934,6 +1084,25 @@ func planC17seq(g *Gen, tier string) GenOutput {
 func planC18(g *Gen, tier string) GenOutput {
 	res := GenOutput{Stats: map[string]int{}}
 	n := scale(tier, 300, 5000)
+	// buckets first seen in the order 1,3,1,2 (return to an earlier bucket, then a new one in between)
+	for _, days := range [][]int{{1, 3, 1, 2}, {2, 1, 2, 3, 1}, {5, 1, 5, 3, 1, 4}, {1, 1, 1}, {3, 2, 1}} {
+		t := Col{Key: "t", Name: "t", Data: []Cell{}}
+		v := Col{Key: "v", Name: "v", Data: []Cell{}}
+		for i, d := range days {
+			t.Data = append(t.Data, TimeCell(time.Date(2021, 3, d, 10+i, 0, 0, 0, time.UTC)))
+			if d == 3 {
+				v.Data = append(v.Data, NilCell())
+			} else {
+				v.Data = append(v.Data, IntCell("int", int64(i)))
+			}
+		}
+		ops := []Op{}
+		for fn := 0; fn < 4; fn++ {
+			ops = append(ops, Op{K: "resample", F: 0, S1: "t", S2: "D", Fn: fn})
+		}
+		res.Hists = append(res.Hists, RunHist("bucket-order-pattern", []Frame{mkFrame(t, v)}, ops))
+		bump(res.Stats, "bucket-order-pattern")
+	}
 	for i := 0; i < n; i++ {
 		nr := g.r.Intn(scale(tier, 12, 40))
 		off := 0
@@ -956,8 +1125,12 @@ func planC18(g *Gen, tier string) GenOutput {
 		nv := g.r.Intn(3)
 		for j := 0; j < nv; j++ {
 			c := Col{Key: BStr(fmt.Sprintf("v%d", j)), Name: BStr(fmt.Sprintf("v%d", j)), Data: []Cell{}}
+			nilp := 0.1
+			if g.chance(0.25) {
+				nilp = 0.75 // whole buckets without a value
+			}
 			for r := 0; r < nr; r++ {
-				if g.chance(0.1) {
+				if g.chance(nilp) {
 					c.Data = append(c.Data, NilCell())
 				} else {
 					c.Data = append(c.Data, IntCell("int", int64(r*10+j)))
@@ -981,6 +1154,42 @@ func planC18(g *Gen, tier string) GenOutput {
 // ---------------- C20: invalid requests ----------------
 func planC20(g *Gen, tier string) GenOutput {
 	res := GenOutput{Stats: map[string]int{}}
+	// every integer parameter at its boundary and extreme values, on frames of 0..3 rows
+	for n := 0; n <= 3; n++ {
+		a := Col{Key: "a", Name: "a", Data: []Cell{}}
+		b := Col{Key: "b", Name: "b", Data: []Cell{}}
+		for i := 0; i < n; i++ {
+			a.Data = append(a.Data, IntCell("int", int64(i)))
+			b.Data = append(b.Data, StrCell(fmt.Sprintf("s%d", i)))
+		}
+		f := mkFrame(a, b)
+		ext := []int64{math.MinInt64, math.MinInt64 + 1, -2, -1, 0, int64(n), int64(n + 1), math.MaxInt64 - 1, math.MaxInt64, math.MaxInt32, math.MinInt32}
+		ops := []Op{}
+		for _, v := range ext {
+			ops = append(ops, Op{K: "head", F: 0, N: v}, Op{K: "tail", F: 0, N: v}, Op{K: "row", F: 0, N: v}, Op{K: "shift", F: 0, N: v},
+				Op{K: "rowslice", F: 0, A: v, B: int64(n)}, Op{K: "rowslice", F: 0, A: 0, B: v}, Op{K: "iloc", F: 0, Ints: []int64{v}, Ints2: []int64{0}},
+				Op{K: "iloc", F: 0, Ints: []int64{}, Ints2: []int64{v}}, Op{K: "droprow", F: 0, N: v})
+		}
+		for i := 0; i < len(ops); i += 11 {
+			j := i + 11
+			if j > len(ops) {
+				j = len(ops)
+			}
+			res.Hists = append(res.Hists, RunHist(fmt.Sprintf("extreme-ints rows=%d", n), []Frame{f}, ops[i:j]))
+			bump(res.Stats, "extreme-ints")
+		}
+		// requests that must fail and leave the frame (names included) exactly as it was
+		bad := []Op{{K: "rename", F: 0, S1: "a", S2: "b"}, {K: "rename", F: 0, S1: "a", S2: "a"}, {K: "rename", F: 0, S1: "zz", S2: "a"},
+			{K: "addcolumn", F: 0, S1: "a", Cells: []Cell{}}, {K: "dropcolumn", F: 0, S1: "zz"}, {K: "astype", F: 0, S1: "zz", S2: "int"},
+			{K: "astype", F: 0, S1: "b", S2: "int"}, {K: "astype", F: 0, S1: "a", S2: "bogus"}, {K: "datetime", F: 0, S1: "a", S2: "2006-01-02"},
+			{K: "datetime", F: 0, S1: "b", S2: "2006-01-02"}, {K: "sort", F: 0, Strs: []BStr{"a", "zz"}}, {K: "multiselect", F: 0, Strs: []BStr{"a", "zz"}},
+			{K: "multiselect", F: 0}, {K: "loc", F: 0, Cells: []Cell{IntCell("int", 1)}, Strs: []BStr{"a"}}, {K: "join", F: 0, G: 0, JK: "outer", S1: "zz"},
+			{K: "resample", F: 0, S1: "a", S2: "D"}, {K: "resample", F: 0, S1: "zz", S2: "D"}, {K: "dedupinplace", F: 0, S1: "sometimes"},
+			{K: "dedupinplace", F: 0, S1: "first", Strs: []BStr{"zz"}}, {K: "groupagg", F: 0, S1: "zz", Agg: "sum"}, {K: "multiselect", F: 0, Strs: []BStr{"a", "b"}},
+			{K: "columnnames", F: 0}}
+		res.Hists = append(res.Hists, RunHist(fmt.Sprintf("must-fail-and-keep rows=%d", n), []Frame{f}, bad))
+		bump(res.Stats, "must-fail-and-keep")
+	}
 	n := scale(tier, 350, 6000)
 	all := append(append(append([]string{}, deriveKinds...), editKinds...), observeKinds...)
 	all = append(all, "fromcsv")
